@@ -113,6 +113,7 @@ pub struct CrashPlan {
     pub reopen_cycles: usize,
     pub sector_tear: bool,
     pub layout: bool,
+    pub probe_auto_ts: bool,
 }
 
 pub fn crash_check(prop: &str, suites: Vec<Suite>, accept: &[&str], plan: CrashPlan, budget_s: f64, report: &mut Report) {
@@ -137,7 +138,7 @@ pub fn crash_check(prop: &str, suites: Vec<Suite>, accept: &[&str], plan: CrashP
             let ob = Obligations::from_path(&keys, &ops, &po.outs, &po.snapshots, &po.log, s.cfg.ttl, s.cfg.data_blocks > 12);
             let from = ob.op_begin.last().copied().unwrap_or(0);
             let now = po.final_model.as_ref().map(|m| m.now).unwrap_or(crate::sut::T0);
-            let opts = CrashOpts { sector_tear: plan.sector_tear, reopen_cycles: plan.reopen_cycles, nest: plan.nest, now };
+            let opts = CrashOpts { sector_tear: plan.sector_tear, reopen_cycles: plan.reopen_cycles, nest: plan.nest, now, probe_auto_ts: plan.probe_auto_ts };
             let ctx = hash64(&[s.name.as_bytes(), format!("{:?}", ob.hists).as_bytes(), &now.to_le_bytes()]);
             let (st, mut findings) = if plan.crash {
                 crash::check_history(&s.cfg, base, &po.log, &ob, from, &opts, &seen, ctx)
